@@ -196,7 +196,7 @@ func c10StartFor(kind, api int) int {
 
 // shape: every redirect graph shape with a fixed credential set-up
 // thorough: depth 0..2 with fully independent hops, depth 3..4 with one status and one Location form per chain, start on A or D.
-// quick:    depth 0..1 full; depth 2 with independent targets/forms but one status per chain; depth 3..4 with status 307 and
+// quick:    depth 0..1 full; depth 2 with independent targets/forms but one status per chain out of {302,307,308}; depth 3..4 with status 307 and
 //           forms {absolute, scheme-relative}; chains that start on plain-http D only up to depth 1.
 func c10ChooseShape(x *vx.X) *c10Script {
 	sc := &c10Script{World: "direct", Cred: c10CHelper, Access: 1, Pol: map[int]c10Pol{}}
@@ -218,8 +218,11 @@ func c10ChooseShape(x *vx.X) *c10Script {
 				forms = c10SameForms
 			}
 			f := forms[x.In(len(forms))]
-			if st < 0 || c10Thorough {
+			switch {
+			case c10Thorough || depth == 1:
 				st = c10Statuses[x.In(len(c10Statuses))]
+			case st < 0:
+				st = []int{302, 307, 308}[x.In(3)] // quick, depth 2: one status per chain out of three
 			}
 			sc.Hops = append(sc.Hops, c10Hop{t, st, f})
 			cur = t
@@ -238,13 +241,24 @@ func c10ChooseShape(x *vx.X) *c10Script {
 	return sc
 }
 
-func c10ChooseCommon(x *vx.X, sc *c10Script) (credKind bool) {
-	sc.Kind = x.In(len(c10Kinds))
+var c10QuickKinds = []int{0, 1, 2, 4, 5, 6, 8, 9, 10, 11, 12} // quick tier: without verify/creds@B and put/creds@B
+
+var (
+	c10HelperCreds = []int{c10CHelper, c10CHelperMulti, c10CLfsURLUserPass, c10CLfsURLUserOnly, c10CRemoteUserPass, c10CRemoteOtherHost, c10CExtraHeader}
+	c10ChainCreds  = []int{c10CNetrcAll, c10CNetrcPartial, c10CAskpass, c10CGitCred, c10CGitCredWarm, c10CNetrcPartialWarm}
+)
+
+func c10ChooseCommon(x *vx.X, sc *c10Script, credList []int) (credKind bool) {
+	if c10Thorough {
+		sc.Kind = x.In(len(c10Kinds))
+	} else {
+		sc.Kind = c10QuickKinds[x.In(len(c10QuickKinds))]
+	}
 	sc.API = 0
 	sc.Start = c10StartFor(sc.Kind, sc.API)
 	credKind = sc.Kind < c10NCredKinds
 	if credKind {
-		sc.Cred = x.In(c10NCreds)
+		sc.Cred = credList[x.In(len(credList))]
 		sc.Access = x.In(2)
 		sc.Pol[sc.Start] = c10StartPols[x.In(len(c10StartPols))]
 	} else {
@@ -272,9 +286,9 @@ func c10ChooseFinalPol(x *vx.X, sc *c10Script, credKind bool, n int) {
 // sources: depth <= 1 with every request kind x credential source x access x 401 policy
 // thorough: statuses {301,303,307}, every Location form, final-host policy {open, need, need+reject}
 // quick:    status 307, forms {absolute, path-absolute}, final-host policy {open, need}
-func c10ChooseSources(x *vx.X) *c10Script {
+func c10ChooseSources(x *vx.X, credList []int) *c10Script {
 	sc := &c10Script{World: "direct", Pol: map[int]c10Pol{}}
-	credKind := c10ChooseCommon(x, sc)
+	credKind := c10ChooseCommon(x, sc, credList)
 	if x.In(2) == 1 {
 		t := x.In(4)
 		statuses := []int{307}
@@ -303,20 +317,24 @@ func c10ChooseSources(x *vx.X) *c10Script {
 
 // sources2: depth 2 (all 16 target pairs)
 // thorough: every kind x credential source x access x start policy x final policy, status 307, forms {absolute, scheme-relative}
-// quick:    kinds {batch, get/creds@api, get/creds@B, get/hdr-unauthenticated}, start policy {open, need}, final host open, absolute
-func c10ChooseSources2(x *vx.X) *c10Script {
+// quick:    kinds {batch, get/creds@api, get/creds@B, get/hdr-unauthenticated}, 11 credential configurations (no cache warm-up), start policy {open, need}, final host open, absolute
+func c10ChooseSources2(x *vx.X, credList []int) *c10Script {
 	sc := &c10Script{World: "direct", Pol: map[int]c10Pol{}}
 	var credKind bool
 	forms := []int{c10FAbs}
 	if c10Thorough {
-		credKind = c10ChooseCommon(x, sc)
+		credKind = c10ChooseCommon(x, sc, credList)
 		forms = []int{c10FAbs, c10FSchemeRel}
 	} else {
 		sc.Kind = []int{0, 4, 5, 8}[x.In(4)]
 		sc.API = 0
 		sc.Start = c10StartFor(sc.Kind, sc.API)
 		credKind = true
-		sc.Cred = x.In(c10NCreds)
+		cl := credList
+		if cl[0] == c10CNetrcAll {
+			cl = cl[:4] // quick: without the two cache warm-up variants
+		}
+		sc.Cred = cl[x.In(len(cl))]
 		sc.Access = x.In(2)
 		sc.Pol[sc.Start] = c10StartPols[x.In(2)]
 	}
@@ -389,15 +407,30 @@ func c10ChooseLoop(x *vx.X) *c10Script {
 	return sc
 }
 
+// The credential configurations are split over two scenarios each: the "helper" class (recording helper, URL userinfo,
+// extraheader) runs with no `git` on PATH at all (git-lfs then skips its `git remote` call), the "chain" class (netrc,
+// cache, askpass, `git credential`) runs with the minting `git` stub as the only git on PATH.
 var c10Blocks = []struct {
-	name   string
-	choose func(x *vx.X) *c10Script
+	name    string
+	choose  func(x *vx.X) *c10Script
+	needGit bool
+	share   float64 // cumulative share of the time budget
 }{
-	{"shape", c10ChooseShape},
-	{"sources", c10ChooseSources},
-	{"sources2", c10ChooseSources2},
-	{"proxy", c10ChooseProxy},
-	{"loop", c10ChooseLoop},
+	{"loop", c10ChooseLoop, false, 0.04},
+	{"shape", c10ChooseShape, false, 0.30},
+	{"sources-helper", func(x *vx.X) *c10Script { return c10ChooseSources(x, c10HelperCreds) }, false, 0.50},
+	{"sources-chain", func(x *vx.X) *c10Script { return c10ChooseSources(x, c10ChainCreds) }, true, 0.66},
+	{"sources2-helper", func(x *vx.X) *c10Script { return c10ChooseSources2(x, c10HelperCreds) }, false, 0.78},
+	{"sources2-chain", func(x *vx.X) *c10Script { return c10ChooseSources2(x, c10ChainCreds) }, true, 0.88},
+	{"proxy", c10ChooseProxy, false, 1.0},
+}
+
+func c10SetPath(needGit bool) {
+	if needGit {
+		os.Setenv("PATH", filepath.Join(c10E.root, "bin"))
+	} else {
+		os.Setenv("PATH", filepath.Join(c10E.root, "nobin"))
+	}
 }
 
 // ------------------------------------------------------------------------------------------------
@@ -534,8 +567,9 @@ func c10Setup() error {
 			return err
 		}
 	}
-	// git-lfs looks `git` up on PATH and caches the subprocess environment: the stub must be the only git, from the start
-	os.Setenv("PATH", bin)
+	os.MkdirAll(filepath.Join(root, "nobin"), 0755)
+	// git-lfs looks `git` up on PATH at every call: either the stub is the only git, or there is none (see c10SetPath)
+	c10SetPath(true)
 	return nil
 }
 
@@ -586,7 +620,8 @@ func c10Drive(w *c10World, sc *c10Script) (d c10Driven) {
 	case c10CLfsURLUserPass:
 		lfsurl = api.Scheme + "://uu:lfsurl~" + api.Scheme + "~" + api.Auth + "@" + api.Auth + repoPath
 	case c10CLfsURLUserOnly:
-		lfsurl = api.Scheme + "://useronly~" + api.Scheme + "~" + api.Auth + "@" + api.Auth + repoPath
+		// user name only: the authority's ':' is written ',' so that the Basic payload "user:pass" stays unambiguous
+		lfsurl = api.Scheme + "://useronly~" + api.Scheme + "~" + strings.ReplaceAll(api.Auth, ":", ",") + "@" + api.Auth + repoPath
 	case c10CRemoteUserPass:
 		gitEnv["remote.origin.url"] = api.Scheme + "://ru:remoteurl~" + api.Scheme + "~" + api.Auth + "@" + api.Auth + "/org/repo.git"
 	case c10CRemoteOtherHost:
@@ -723,7 +758,7 @@ func c10Provenance(v string) (src, scheme, auth string, ok bool) {
 				return "netrc", "", parts[1], true
 			}
 			if len(parts) >= 3 {
-				return parts[0], parts[1], parts[2], true
+				return parts[0], parts[1], strings.ReplaceAll(parts[2], ",", ":"), true
 			}
 		}
 	}
@@ -977,6 +1012,7 @@ func c10RunFor(block string, choose func(*vx.X) *c10Script) vx.RunFunc {
 		}
 		if capped {
 			r.Counters["cases_stopped_by_server_request_cap"]++
+			r.Counters["cases_stopped_by_server_request_cap/"+c10CredNames[sc.Cred]+"/"+c10Kinds[sc.Kind].family]++
 		}
 		r.Counters["requests_observed"] += int64(len(obs))
 		res := d.result
@@ -1071,6 +1107,7 @@ func TestVerifC10(t *testing.T) {
 		for _, b := range c10Blocks {
 			if b.name == replay.Scenario {
 				run = c10RunFor(b.name, b.choose)
+				c10SetPath(b.needGit)
 			}
 		}
 		if run == nil {
@@ -1088,6 +1125,10 @@ func TestVerifC10(t *testing.T) {
 		os.Exit(c.Finish([]vx.Part{{Scenario: replay.Scenario, Stats: st, Exec: exec}}, nil))
 	}
 	deadline := c.DeadlineAfter(165*time.Second, 22*time.Minute)
+	// every scenario gets its share of the time budget (unused time is passed on), so that a slow machine cuts all
+	// scenarios proportionally instead of dropping the last ones
+	begin := time.Now()
+	total := deadline.Sub(begin)
 	only := os.Getenv("VERIF_ONLY")
 	var parts []vx.Part
 	counters := map[string]int64{}
@@ -1097,10 +1138,16 @@ func TestVerifC10(t *testing.T) {
 			continue
 		}
 		run := c10RunFor(b.name, b.choose)
+		needGit := b.needGit
+		c10SetPath(needGit)
 		t0 := time.Now()
-		e := &vx.Explorer{Name: "C10/" + b.name, BoundEnv: 0, BoundSch: 0, BoundSum: -1, Workers: n, Run: run, Deadline: deadline}
+		dl := begin.Add(time.Duration(float64(total) * b.share))
+		if only != "" {
+			dl = deadline
+		}
+		e := &vx.Explorer{Name: "C10/" + b.name, BoundEnv: 0, BoundSch: 0, BoundSum: -1, Workers: n, Run: run, Deadline: dl}
 		st := e.Explore()
-		parts = append(parts, vx.Part{Scenario: b.name, Stats: st, Exec: func(p []vx.Point) vx.Result { return vx.SafeRun(run, p) }})
+		parts = append(parts, vx.Part{Scenario: b.name, Stats: st, Exec: func(p []vx.Point) vx.Result { c10SetPath(needGit); return vx.SafeRun(run, p) }})
 		for k, v := range st.Counters {
 			counters[k] += v
 		}
